@@ -1,0 +1,15 @@
+//go:build verif
+
+package httpstat
+
+/*@
+// statistics: no effect on modelled state
+func (t *TopN) Stat(path string) (s *HTTPStat)
+  trusted
+  flag allocates
+  pure
+  ensures s != nil
+
+func (hs *HTTPStat) Stat(m *Metric)
+  trusted
+@*/
